@@ -1214,7 +1214,7 @@ func (syncEngine) Generate(rng *rand.Rand, tier string) []core.Case {
 	gt := params.GenesisBlock.Header.Timestamp.Unix()
 	n, steps := 36, 45
 	if tier == "thorough" {
-		n, steps = 680, 60 // thorough tier ≈ 30 min over 4 seeds (each op now also drains the NtfnServer and runs the C02 wallet-level oracle)
+		n, steps = 450, 60 // thorough tier: ~5 min per seed on the Go side, 4 seeds (each op also drains the NtfnServer and runs the C02 wallet-level oracle); the long pruning-window chain below is kept
 	}
 	var cases []core.Case
 	mk := func(recw int) *syncGen {
